@@ -6,7 +6,8 @@
 From Coq Require Import List String ZArith NArith Bool.
 Import ListNotations.
 From DV Require Import Model.Tree Model.Tables Model.Restore Model.Merge Model.Imports
-     Proofs.RestoreProofs Proofs.MergeProofs Proofs.ImportsProofs.
+     Proofs.RestoreProofs Proofs.MergeProofs Proofs.ImportsProofs
+     Model.MergeProg Gen.MergeSrc Proofs.MergeSrcProofs.
 Local Open Scope string_scope.
 Local Open Scope list_scope.
 Local Open Scope Z_scope.
@@ -63,6 +64,30 @@ Example C08_nonvacuous :
   collapse sl = mkID SNewLine [DBlock 5 [] 1] [DLine 4 2; DBlock 5 [] 3] [DLine 4 4] SEmptyLine.
 Proof. vm_compute. reflexivity. Qed.
 
+(* mergeDecorations is not only transcribed by hand: the translator renders it case by case into a merge
+   program (Gen/MergeSrc.v: what happens to endsWithNewLine and out for a decoration list and for each
+   line spacing value; the default case panics) and the program is proved to compute Model/Merge.merge for
+   EVERY argument list (induction over the arguments from an arbitrary state of the two variables) *)
+Theorem C08_mergeDecorations_source_computes_the_model :
+  forall items, ms_out (mrun mergeDecorations_src items) = merge false items
+                /\ ms_stuck (mrun mergeDecorations_src items) = false.
+Proof. exact merge_source_is_model. Qed.
+
+Theorem C08_merge_source_is_within_the_language : mprog_known mergeDecorations_src = true.
+Proof. vm_compute. reflexivity. Qed.
+
+(* the three calls in decorateSelectorExpr pass the slots in the order of Model/Merge.collapse and
+   append the result to the Start, X and End decorations of the identifier (which map entry each local
+   holds is part of the hand model, corresponded) *)
+Theorem C08_merge_calls_are_the_models :
+  merge_calls = [("Start", ["nStart"; "xBefore"; "xStart"]);
+                 ("X", ["xEnd"; "xAfter"; "nX"; "sBefore"; "sStart"]);
+                 ("End", ["sEnd"; "sAfter"; "nEnd"])].
+Proof. vm_compute. reflexivity. Qed.
+
 Print Assumptions C08_collapse_keeps_every_comment.
 Print Assumptions C08_merged_spacing_renders_the_same_line_breaks.
 Print Assumptions C08_imports_untouched_when_nothing_changes.
+Print Assumptions C08_mergeDecorations_source_computes_the_model.
+Print Assumptions C08_merge_source_is_within_the_language.
+Print Assumptions C08_merge_calls_are_the_models.
